@@ -94,7 +94,8 @@ MUTANTS = [
      "    old = {x: f.__globals__[x] for x in mock if x in f.__globals__}\n    f.__globals__.update(mock)\n",
      "    f.__globals__.update(mock)\n    old = {x: f.__globals__[x] for x in mock if x in f.__globals__}\n"),
     ("C23", "absent-names-not-deleted", GI + "tracing/builtins_mock.py",
-     "            if x not in old:\n                del f.__globals__[x]\n", ""),
+     "            if x not in old:\n                del f.__globals__[x]\n",
+     "            if x not in old:\n                pass\n"),
     ("C23", "mutate-builtins-module", GI + "tracing/builtins_mock.py",
      "    f.__globals__.update(mock)\n    try:\n        yield\n",
      "    f.__globals__.update(mock)\n    builtins.len = len\n    try:\n        yield\n"),
